@@ -20,6 +20,7 @@
 -/
 import NutsProofs.Props.C14
 import Nuts.Model.DB
+import NutsProofs.Facts
 namespace NutsProofs.C18
 open Nuts.Model.Conc Nuts.Model.DB NutsProofs.Conc
 
@@ -65,5 +66,12 @@ theorem C18_copy_opens_like_the_original (o : Opts) (original copy : List File) 
 /-- non-vacuity: a backup of a two-file state, run alone -/
 example : ((run (backupProg 2).steps { files := [{ fid := 0, recs := [] }, { fid := 1, recs := [] }] }).2.filterMap id).map (·.fid) = [0, 1] := by
   rw [backup_copies_files]; decide
+
+/-- **regenerated premise of the theorems above.** `backupProg` models `Backup` as one read-mode transaction
+whose steps copy the files. That shape is read off the source on every run: the body of `DB.Backup` is the call
+of `db.View` and nothing else, and the function it passes calls `filesystem.CopyDir` only. A Backup that reads
+or copies anything before taking (or after releasing) the read lock breaks this obligation. -/
+theorem C18_backup_is_one_read_transaction :
+    NutsGen.F.backupShape = (["DB.View"], [], ["filesystem.CopyDir"]) := NutsProofs.Facts.backup_under_read_lock
 
 end NutsProofs.C18
